@@ -468,6 +468,20 @@ def post(which):
             return z3.And(inv("order-is-a-bijection")(E, v, o), z3.ForAll([a], z3.Implies(z3.And(0 < a, a < n), s.Pos(s.Pid(a)) < s.Pos(a))))
         if which == "each-point-was-attached-by-a-cheapest-admissible-edge":
             return s.greedy_history(False)
+        if which == "without-balancing-factor-and-limit-every-point-was-attached-by-a-lightest-edge-across-the-cut-of-the-points-attached-before-it":
+            # PREMISE of the cut-property lemma lean/Prim.lean (prim_tree_is_minimum, prim_tree_total_is_least): with (inj) / (parents-first) from
+            # `attachment-order-is-a-bijection-with-parents-first` and w := the Euclidean distance (non-negative, symmetric: proved at the distance
+            # matrix), the lemma gives: total length of the parent table = minimum over all connected graphs on the points = length of a minimum
+            # spanning tree.  umul is the abstraction of the real product bf * acc[a]; its one property needed here, 0 * y = 0, is an explicit hypothesis.
+            y = z3.Real("mst_y")
+            v_, a_, b_ = z3.Ints("mst_v mst_a mst_b")
+            zero_mul = z3.ForAll([y], X.UMUL(z3.RealVal(0), y) == 0, patterns=[X.UMUL(z3.RealVal(0), y)])
+            prem = z3.ForAll([v_, a_, b_], z3.Implies(z3.And(s.inr(v_), v_ != 0, s.inr(a_), s.inr(b_), s.Pos(a_) < s.Pos(v_), s.Pos(b_) >= s.Pos(v_)),
+                                                       s.Dis(s.Pid(v_), v_) <= s.Dis(a_, b_)), patterns=[z3.MultiPattern(s.Dis(s.Pid(v_), v_), s.Dis(a_, b_))])
+            E.assumptions.add("assumed-lemma: prim cut-property (lean/Prim.lean: prim_tree_is_minimum, prim_tree_connected, prim_tree_weight_eq, prim_tree_total_is_least) - from the proved "
+                              "postconditions `attachment-order-is-a-bijection-with-parents-first` and `mst-premise/...` (w := Euclidean distance, V := the rows) it follows that the total "
+                              "length of the returned parent table is that of a minimum spanning tree; the conclusion itself (a sum over the rows) is not restated in SMT")
+            return z3.Implies(z3.And(s.bf == 0, s.K == -1, zero_mul), prem)
         if which == "furcations-count-the-children-and-respect-the-limit":
             return z3.And(inv("furcations-count-the-children")(E, v, o), inv("cap")(E, v, o))
         if which == "transform-object-unchanged":
@@ -613,7 +627,9 @@ def after_tree(which):
 
 POSTS = ["every-point-is-connected", "parent-table-is-a-tree-rooted-at-0", "rows-are-the-input-points-once-each-in-order",
          "no-non-exempt-node-has-more-than-K-children", "furcations-count-the-children-and-respect-the-limit", "path-length-to-the-root",
-         "attachment-order-is-a-bijection-with-parents-first", "each-point-was-attached-by-a-cheapest-admissible-edge", "transform-object-unchanged"]
+         "attachment-order-is-a-bijection-with-parents-first", "each-point-was-attached-by-a-cheapest-admissible-edge",
+         "mst-premise/without-balancing-factor-and-limit-every-point-was-attached-by-a-lightest-edge-across-the-cut-of-the-points-attached-before-it",
+         "transform-object-unchanged"]
 
 
 def call_setup(soma_given, names_given=False):
@@ -670,7 +686,7 @@ def register(R: Registry):
         prop="C17",
         variants={"soma=None": call_setup(False), "soma given": call_setup(True), "soma=None, names= given (deprecated keyword)": call_setup(False, True)},
         requires=[("bf-in-unit-interval", pre("bf-in-unit-interval")), ("branching-limit-is-minus-one-or-positive", pre("branching-limit-is-minus-one-or-positive"))],
-        ensures=[(p, post(p)) for p in POSTS] + [("returned-tree/" + p, ret_post(p)) for p in RET_POSTS],
+        ensures=[(p, post(p.split("/")[-1])) for p in POSTS] + [("returned-tree/" + p, ret_post(p)) for p in RET_POSTS],
         loops={0: dict(invariant=[(x, inv(x)) for x in INVS], modifies=["g_pos", "g_perm", "g_crank", "g_kid", "g_depth", "g_nk"])},
         options=dict(
             registry=_Overlay(R, local),
